@@ -114,7 +114,7 @@ def check(prog, res, tier):
 
         def chk_g(p, mode, expanded=expanded):
             if p.outcome != 'return':
-                return [definite(f'_get_param_field raises {p.value!r}')]
+                return [definite(f'_get_param_field raises {p.value!r}')] if p.outcome == 'raise' else []
             v = p.value
             st = p.store
             rec = p.interp.user['rec'].segs[0].src
@@ -262,6 +262,27 @@ def check(prog, res, tier):
         return it.instantiate(ci, [f, tid], {'param_config': cfg, 'encoding': codec(it)}, None)
     runs_i = Runs(prog, entry_i, summaries={'mciipm.VbsReader.__next__': vbs_next2}, res=res)
 
+    def trailer_seen(p, since=0, until=None):
+        for kind, t, d in p.facts:
+            if kind == 'startswith' and t and 'TRAILER' in str(d.get('prefix')):
+                return True
+        return False
+
+    # locals that become True only on a path that has seen the trailer ("trailer found" flags)
+    flags = set()
+    bad_flags = set()
+    for p0 in runs_i.inv:
+        for first, last, s0, s1, head in iterations(p0, func=ifi.short):
+            for k, v1 in s1.items():
+                if k[0] != 'local':
+                    continue
+                v1r = p0.interp.resolve(v1) if v1 is not None else None
+                v0 = s0.get(k)
+                v0r = p0.interp.resolve(v0) if v0 is not None else None
+                if isinstance(v1r, ConstV) and v1r.value is True and not (isinstance(v0r, ConstV) and v0r.value is True):
+                    (flags if trailer_seen(p0) else bad_flags).add(k)
+    flags -= bad_flags
+
     def chk_i(p, mode):
         if p.outcome == 'loopback':
             return []
@@ -274,8 +295,15 @@ def check(prog, res, tier):
                 fails.append(definite('the file is read before the missing configuration is refused'))
             return fails
         if p.outcome == 'return':
-            trailer = [t for k, t, d in p.facts if k == 'startswith' and t and 'TRAILER' in str(d.get('prefix'))]
-            if not trailer:
+            ok = trailer_seen(p)
+            if not ok and mode == 'inv':
+                # left through a loop condition on a flag that is only ever set after the trailer was seen
+                heads = [e for e in p.events if e.kind == 'loop-head' and e.func == ifi.short]
+                for h in heads:
+                    for k, g in h.data['gen'].items():
+                        if k in flags and isinstance(g, SymV) and p.binds.get(('truth', g.name)) is True:
+                            ok = True
+            if not ok:
                 fails.append(definite('construction succeeds although no index trailer record was seen'))
         elif p.outcome == 'raise' and exc_key(p.value.cls) != MLIB:
             fails.append(definite(f'constructor raises {p.value!r}'))
